@@ -1,6 +1,6 @@
 SPECIFICATION Spec
 CONSTANTS
-  MaxAcc = 21
+  MaxAcc = 6
   TrackAcc = TRUE
   MaxSaves = 1
 INVARIANT TypeOK
